@@ -120,7 +120,9 @@ def descrPool : List (List Nat) :=
   [[73, 80, 77, 67], [102, 119, 92, 117, 112, 100, 97, 116, 101], [65, 92, 117, 48, 48, 52, 50, 67], [65, 66, 67],
    [92, 85, 48, 48, 48, 48, 48, 48, 52, 49], [92, 92, 117, 48, 48, 52, 49], [98, 111, 111, 116, 92], [92, 117, 48, 48, 48, 48, 97],
    [92, 120, 52, 49], [92, 117, 100, 56, 48, 48], [92, 85, 48, 48, 49, 49, 48, 48, 48, 48], [70, 80, 71, 65, 32, 35, 49],
-   [84, 119, 101, 108, 118, 101, 32, 99, 104, 97, 114, 115]]     -- the last one fills the 12-byte field
+   [84, 119, 101, 108, 118, 101, 32, 99, 104, 97, 114, 115],     -- this one fills the 12-byte field
+   -- descriptions that begin / end with a blank character: "IPMC ", " IPMC", "boot\t", "\nfw", " "
+   [73, 80, 77, 67, 32], [32, 73, 80, 77, 67], [98, 111, 111, 116, 9], [10, 102, 119], [32]]
 
 def genDescr : Gen (List Nat) := do
   match ← rnd 4 with
@@ -207,9 +209,21 @@ def genAccess : Gen UserAccess := do
   pure { privilege := ← pick [0, 1, 2, 3, 4, 5, 0xf, 7], ipmiMsg := ← rndBool, linkAuth := ← rndBool,
          callbackOnly := ← rndBool, sessionLimit := ← rnd 16 }
 
+/-- a blank character (space, tab, newline, carriage return) chosen by an already drawn value -/
+def blankOf (c : Nat) : Nat := [0x20, 0x20, 0x09, 0x0a, 0x0d].getD (c / 8 % 5) 0x20
+
+/-- stored user names: printable ASCII of every length 0..16; about a quarter of them BEGIN and / or END with a blank
+character (legal name characters, IPMI 22.28) - decided by the characters already drawn, so that the rest of the
+generated state does not depend on it -/
 def genName : Gen (List Nat) := do
   let n ← rnd 17
   let cs ← (List.range n).mapM fun _ => do pure (0x20 + (← rnd 0x5f))
+  let cs := match cs with
+    | a :: b :: r => if a % 8 == 0 then blankOf a :: b :: r else cs
+    | _ => cs
+  let cs := match cs.reverse with
+    | z :: y :: r => if z % 8 == 1 then (blankOf z :: y :: r).reverse else cs
+    | _ => cs
   pure (padTo 16 cs)
 
 def genState : Gen BmcState := do
